@@ -82,7 +82,7 @@ class SpecFn:
 
 
 class Lemma:
-    def __init__(self, cset, fn, forall, ensures, requires=(), triggers=(), decreases=None, trusted=False, note=''):
+    def __init__(self, cset, fn, forall, ensures, requires=(), triggers=(), decreases=None, trusted=False, note='', group=None):
         self.cset = cset
         self.name = fn.__name__
         self.pyfn = fn
@@ -98,6 +98,7 @@ class Lemma:
         self.trusted = trusted
         self.note = note
         self.index = None
+        self.group = group
 
 
 class ContractSet:
